@@ -440,14 +440,19 @@ def corpus():
                    ["readd", "k1"], ["assign", "out", "n1__oi", 4], ["run", {"n1__s": "q"}]]}
 
 
-    # KF-C15-1: the README's example (a connected channel exposed through the map), then replace_child
+    # KF-C15-1: a connected channel exposed through the map, then replace_child. README_REPLACE is the
+    # README's own example (raises RecursionError; the state it ends in depends on the stack depth),
+    # KF1_WITNESS ends with `children` listing a node that the panels do not show, every time.
+    yield dict(README_REPLACE)
     yield dict(KF1_WITNESS)
 
 
-KF1_WITNESS = {"ops": [["add", "F", "first", "k0"], ["add", "F", "second", "k1"],
-                       ["connect", "assign", "k1.a", "k0.o"],
-                       ["map", "out", {"first__o": "intermediate", "second__o": "y"}, "dict"],
-                       ["replace", "first", "F", "k2"]]}
+README_REPLACE = {"ops": [["add", "F", "first", "k0"], ["add", "F", "second", "k1"],
+                          ["connect", "assign", "k1.a", "k0.o"],
+                          ["map", "out", {"first__o": "intermediate", "second__o": "y"}, "dict"],
+                          ["replace", "first", "F", "k2"]]}
+KF1_WITNESS = {"ops": [["add", "F", "n0", "k0"], ["ext", "T", "n1", "k1"], ["map", "out", {"n0__o": "x"}, "dict"],
+                       ["connectvia", "out", "x", "k1.u"], ["replace", "n0", "F", "k2"]]}
 
 
 # ----------------------------------------------------------------------------- implementation side
@@ -753,6 +758,10 @@ def model_input(case, impl=None):
                 if prev_vals is None or c >= len(prev_vals) or prev_vals[c] != v:
                     lines.append(f"q val {c} {v}")
             lines.append(f"run {res}")
+        elif what == "replace" and st["info"].get("exc"):
+            # a replace_child that raised: the history ends here (see run_impl); whether the state it
+            # leaves is consistent is judged by the oracle alone
+            pass
         elif what == "replace":
             # replace_child's rewiring is C14's subject: re-synchronise children, connections, values
             created.add(op[3])
@@ -773,7 +782,8 @@ def model_input(case, impl=None):
 def corr_view(case, impl):
     if "raw" in case:
         return impl["obs"]
-    return [line for st, line in zip(impl["states"], impl["obs"]) if st["res"] != "skip"]
+    return [line for st, line in zip(impl["states"], impl["obs"])
+            if st["res"] != "skip" and not (st["op"][0] == "replace" and st["info"].get("exc"))]
 
 
 # ----------------------------------------------------------------------------- oracle (independent of the model)
